@@ -120,6 +120,7 @@ def run(rep, tier):
     pr = Premise(rep, "R0", "C18")
     c18.r1_r4(prog, pr)
     c18.r2(prog, pr)
+    c18.r5(prog, pr)  # fpolprime == d fpol/d psi for every equilibrium class (enters dBzetadR/dZ)
     # the x-y formulation differentiates with DDX/DDY: they must be centred difference stencils
     # that reach into the right neighbour cells (rule instances of C06.R5)
     from . import c06
